@@ -146,6 +146,7 @@ func c19TwoGroupsScenario() schedScenario {
 				ref := h.Sess[0].Ref
 				sc.Free()
 				var costs []map[int32]uint32
+				var grants []map[int32]int32
 				var codes []int
 				for i := 0; i < 2; i++ {
 					op := Op{K: "update", S: 0, Seq: int32(i + 1), MUs: []MU{
@@ -153,6 +154,12 @@ func c19TwoGroupsScenario() schedScenario {
 						{RG: 2, Req: 30, Conts: []Cont{{Vol: 0, Seq: int32(10*i + 2)}}}}}
 					r := w.Do("POST", ccBase+"/chargingdata/"+ref+"/update", op.Request(supiA), nil)
 					codes = append(codes, r.Code)
+					g := map[int32]int32{1: -1, 2: -1}
+					units, _, _ := parseUnits(r.Body)
+					for _, u := range units {
+						g[u.RG] = u.Granted
+					}
+					grants = append(grants, g)
 					s := w.Snapshot(false)
 					c := map[int32]uint32{}
 					for k, v := range s.UEs[supiA].UnitCost {
@@ -170,6 +177,7 @@ func c19TwoGroupsScenario() schedScenario {
 				vs.Quiesce()
 				sc.Stop()
 				sc.Results["costs"] = costs
+				sc.Results["grants"] = grants
 				sc.Results["codes"] = codes
 			})
 		},
@@ -194,7 +202,19 @@ func c19TwoGroupsScenario() schedScenario {
 					fs = append(fs, Finding{"tariff-of-another-rating-group", fmt.Sprintf("the first update (answered %v) asked for %d units of rating group %d (tariff %d) and %d was debited from the account: priced with a tariff that was not answered for this rating group", codes, req, rg, own[rg], d)})
 				}
 			}
-			return fmt.Sprintf("codes=%v costs=%v debited=%v", codes, costs, deb), fs
+			// the accounts cover every request: a rating group is granted what it asked for, or nothing when one of its
+			// exchanges was lost, or what the request priced at the fallback unit cost buys - never another amount (that would be
+			// the grant of another exchange)
+			grants, _ := sc.Results["grants"].([]map[int32]int32)
+			for i, g := range grants {
+				for rg, req := range map[int32]int32{1: 40, 2: 30} {
+					// (with the fallback unit cost 1 the money reserved buys req / tariff units)
+					if v := g[rg]; v != req && v != req/int32(own[rg]) && v != -1 && v != 0 {
+						fs = append(fs, Finding{"grant-of-another-exchange", fmt.Sprintf("update %d (answered %v) asked for %d units of rating group %d and was granted %d (all grants: %v)", i+1, codes, req, rg, v, grants)})
+					}
+				}
+			}
+			return fmt.Sprintf("codes=%v costs=%v debited=%v grants=%v", codes, costs, deb, grants), fs
 		},
 		Elig: func(def, alt string) bool {
 			if alt != "DELAY" && alt != "TIME" {
